@@ -80,21 +80,58 @@ Theorem C06_recover_remove_masters_depth1 : forall (R : rigsQ) (T : trajQ) maste
 Proof. exact recover_remove_masters_depth1. Qed.
 Print Assumptions C06_recover_remove_masters_depth1.
 
-(* --- 4. PARTIAL for nested rigs (depth > 1) with a master list.  The full statement would be:
-          "if for every rig r and timestamp t at which some device below r is posed, masters names a member of r
-           that is posed or lies above a posed device, then every top-level rig is recovered and no sensor moves".
-        Proved here, for any depth and any master list: every entry of the result is the world pose of its device
-        (so whatever is recovered is right and nothing is moved), and a top-level rig is recovered when a master
-        member of it is posed in the input of recover.  MISSING: the propagation of "some master below r is live"
-        through the intermediate rigs, i.e. that the rig entry written in iteration k is itself picked up as a
-        master (or finds its rig already posed) in iteration k+1; masters = None (theorem 2) has no such gap. *)
-Theorem C06_recover_masters_partial : forall (R : rigsQ) (T : trajQ) masters world,
+(* --- 2b. the classic input -- only top-level rigs and free sensors are posed -- needs no world hypothesis:
+         the consistent world exists (PRigs.roots_consistent).  Free sensors come back literally unchanged. *)
+Theorem C06_recover_remove_roots : forall (R : rigsQ) (T : trajQ) n,
+  wf2 R -> wf2 T -> one_parent R -> depth_le R n -> (n <= max_depth)%nat -> rigs_nonempty R -> rigs_validQ R ->
+  no_empty_timestamp T -> traj_validQ T -> (forall t d, posed T t d -> mounted R d = false) ->
+  exists T1 T2,
+    remove_spec_inplace max_depth R T = Done T1 /\ recover_spec_inplace max_depth R None T1 = Done T2 /\
+    (forall t r p, is_rig R r = true -> lookup2 t r T = Some p -> exists p2, lookup2 t r T2 = Some p2 /\ p2 =p= p) /\
+    (forall t d p, is_rig R d = false -> lookup2 t d T = Some p -> lookup2 t d T2 = Some p) /\
+    (forall t s p1, lookup2 t s T1 = Some p1 ->
+                    exists y l p2 c, path_up R s l y /\ mounted R y = false /\ lookup2 t y T2 = Some p2 /\
+                                     compose_list (map snd l ++ [p2]) = Some c /\ p1 =p= c) /\
+    (forall t y, mounted R y = true -> lookup2 t y T2 = None).
+Proof. exact recover_remove_roots. Qed.
+Print Assumptions C06_recover_remove_roots.
+
+(* --- 4. a master list with nested rigs, any depth <= 10: if the master list names a chain from a posed device s
+        up to a top-level rig (s itself and every rig strictly between s and top), then top is recovered with its
+        world pose, every entry of the result is the world pose of its device, and every device of that tree
+        posed before keeps the pose implied by top's entry: no sensor moved.
+        (Theorem 4a derives the chain from the quantifier's "one live master member per rig and timestamp".) *)
+Theorem C06_recover_masters_chain : forall (R : rigsQ) (T : trajQ) masters world t s l top,
   wf2 R -> wf2 T -> one_parent R -> rigs_validQ R -> consistent R world T ->
-  exists T2, recover_spec_inplace max_depth R masters T = Done T2 /\ consistent R world T2 /\
-    forall t r m g, member R r m g -> mounted R r = false -> is_master masters m = true -> posed T t m ->
-                    exists p2, lookup2 t r T2 = Some p2 /\ p2 =p= world t r.
-Proof. exact recover_masters_pose. Qed.
-Print Assumptions C06_recover_masters_partial.
+  path_up R s l top -> mounted R top = false -> (List.length l <= max_depth)%nat ->
+  (forall x, In x (nodes_below pose s l) -> is_master masters x = true) -> posed T t s ->
+  exists T2 p2, recover_spec_inplace max_depth R masters T = Done T2 /\ consistent R world T2 /\
+    lookup2 t top T2 = Some p2 /\ p2 =p= world t top /\
+    (forall s' l' p1, path_up R s' l' top -> lookup2 t s' T = Some p1 ->
+                      exists c, compose_list (map snd l' ++ [p2]) = Some c /\ p1 =p= c).
+Proof. exact recover_masters_chain_pose. Qed.
+Print Assumptions C06_recover_masters_chain.
+
+(* --- 4a. the quantifier's own formulation, any depth <= 10: at timestamp t the master list names, for every rig that
+         has something posed below it, a member that is posed or has something posed below it (masters_cover).
+         Then every top-level rig with something posed below it is recovered with its world pose and no posed
+         device of its tree moves.  (PRigs.master_chain_exists descends from the rig to a posed device.) *)
+Theorem C06_recover_masters_cover : forall (R : rigsQ) (T : trajQ) masters world t top n,
+  wf2 R -> wf2 T -> one_parent R -> depth_le R n -> (n <= max_depth)%nat -> rigs_validQ R -> consistent R world T ->
+  masters_cover R T t masters -> mounted R top = false -> (exists d, anc R top d /\ posed T t d) ->
+  exists T2 p2, recover_spec_inplace max_depth R masters T = Done T2 /\ consistent R world T2 /\
+    lookup2 t top T2 = Some p2 /\ p2 =p= world t top /\
+    (forall s' l' p1, path_up R s' l' top -> lookup2 t s' T = Some p1 ->
+                      exists c, compose_list (map snd l' ++ [p2]) = Some c /\ p1 =p= c).
+Proof. exact recover_masters_cover_pose. Qed.
+Print Assumptions C06_recover_masters_cover.
+
+(* --- 4b. the copying variants rigs_remove / rigs_recover run the same function on copy.deepcopy(trajectories); the
+         copy is the trajectories itself whenever no timestamp is empty (all of the quantifier), so theorems 1-4 hold
+         for both variants; purity of the model is by construction, that of the code is checked by snapshots *)
+Theorem C06_copy_variants : forall (T : trajQ), wf T -> no_empty_timestamp T -> deepcopy_traj T = T.
+Proof. exact (@deepcopy_traj_id pose). Qed.
+Print Assumptions C06_copy_variants.
 
 (* --- 5. the modelled KeyError outcomes (a job whose entry has vanished) never happen on real dicts *)
 Theorem C06_no_keyerror : forall (R : rigsQ) (T : trajQ) masters fuel,
